@@ -692,4 +692,9 @@ impl ThetaHashTable {
     pub(crate) fn verif_table(&self) -> (u8, Vec<u64>) {
         (self.lg_cur_size, self.entries.clone())
     }
+
+    /// Verification hook: what hash_and_screen does to the emptiness flag.
+    pub(crate) fn verif_touch(&mut self) {
+        self.is_empty = false;
+    }
 }
